@@ -8,6 +8,7 @@ import Omaha.Drv.Cup
 import Omaha.Drv.Request
 import Omaha.Drv.Response
 import Omaha.Drv.Uri
+import Omaha.Drv.SM
 
 open Omaha Omaha.Drv
 
@@ -19,6 +20,7 @@ def handleLine (line : String) : String :=
   | "wire-req" :: rest => handleRequest rest
   | "resp" :: rest => handleResponse rest
   | "uri" :: rest => handleUri rest
+  | "sm" :: rest => handleSM rest
   | _ => "bad-op"
 
 partial def loop (h : IO.FS.Stream) (out : IO.FS.Stream) : IO Unit := do
